@@ -310,13 +310,17 @@ def main():
     with open(os.path.join(EVID, pid + ".json"), "w") as f:
         json.dump(ev, f, indent=1)
     log("== %s: %d/%d obligations held, %d inconclusive, %d violations, %.0fs" % (pid, len(passed), len(allr), len(inconclusive), len(real_viol), time.time() - t0))
+    def done(code):
+        # leave without interpreter teardown: releasing millions of z3 AST references one by one at exit can take tens of minutes
+        sys.stdout.flush(); sys.stderr.flush()
+        os._exit(code)
     if real_viol:
-        sys.exit(1)
+        done(1)
     if inconclusive or not allr:
         for r in inconclusive:
             log("   inconclusive: %s: %s" % (r["name"], r.get("reason", "")[:300]))
-        sys.exit(2)
-    sys.exit(0)
+        done(2)
+    done(0)
 
 
 if __name__ == "__main__":
